@@ -51,6 +51,18 @@ def pushdown_predicates(expression: E, dialect: DialectType = None) -> E:
                 selected_sources: Sources = scope.selected_sources
                 join_index = {join.alias_or_name: i for i, join in enumerate(joins)}
 
+                # a full join preserves both of its sides: rows rejected by the WHERE clause would come
+                # back NULL-padded if the predicate ran below it, so only sources joined later qualify
+                last_full_join = max(
+                    (i for i, join in enumerate(joins) if join.side == "FULL"), default=-1
+                )
+                if last_full_join >= 0:
+                    selected_sources = {
+                        k: v
+                        for k, v in selected_sources.items()
+                        if join_index.get(k, -1) > last_full_join
+                    }
+
                 # a right join can only push down to itself and not the source FROM table
                 # presto, trino and athena don't support inner joins where the RHS is an UNNEST expression
                 pushdown_allowed = True
